@@ -295,32 +295,6 @@ theorem witness_check_sound (g0 : Graph V) (h : List (Event V)) (S : List (LOp V
 
 /-! ### without the lock: a two-client schedule that is not linearizable -/
 
-omit [DecidableEq V] in
-/-- the evaluation micro-steps, run without interference, are exactly `Eval` (so the split used
-    below is faithful to `process()`) -/
-theorem micro_uninterrupted (g : Graph V) (hac : Acyclic F g) (hra : ReadsAll g) (i : Nat) (s : SNode V)
-    (hs : g i = .struct s) (ho : Outdated F g i = true) :
-    (microRun F i s (g, []) (s.deps.map .pull ++ [.finish])).1 = (Eval F g i).1 := by
-  obtain ⟨rank, hwf⟩ := hac
-  have hgen : ∀ (ds : List Nat) (g1 : Graph V) (vals : List V),
-      microRun F i s (g1, vals) (ds.map .pull) = ((pull (Eval F) g1 ds).1, vals ++ (pull (Eval F) g1 ds).2.1) := by
-    intro ds
-    induction ds with
-    | nil => intro g1 vals; simp [microRun, pull]
-    | cons d ds ih =>
-      intro g1 vals
-      simp only [List.map_cons, microRun, List.foldl_cons, micro, pull]
-      have := ih (Eval F g1 d).1 (vals ++ [val (Eval F g1 d).1 d])
-      simp only [microRun] at this
-      rw [this]
-      simp
-  rw [Eval_eq_all g hwf hra, hs]
-  simp only [ho, if_true, microRun, List.foldl_append, List.foldl_cons, List.foldl_nil]
-  have := hgen s.deps g []
-  simp only [microRun] at this
-  rw [this]
-  simp [micro]
-
 def f1 : List (Option Nat) → List (List Nat) → List (Option Nat) → Nat :=
   fun _ _ vs => vs.foldl (fun a o => a + o.getD 0) 1
 
@@ -426,40 +400,6 @@ theorem critical_section_atomic {σ : Type} (g0 : σ) (s : GSys σ) (h : GExec g
   rw [h1] at h2
   exact Option.some.inj h2
 
-omit [DecidableEq V] in
-/-- the micro-steps of `Artifact(i)`, applied one after the other with nothing in between, are
-    exactly the sequential specification's `Eval` -/
-theorem artifactTrace_eval (g : Graph V) (hac : Acyclic F g) (hra : ReadsAll g) (i : Nat) (s : SNode V)
-    (hs : g i = .struct s) (ho : Outdated F g i = true) :
-    (artifactTrace F i s g s.deps []).foldl (fun a f => f a) g = (Eval F g i).1 := by
-  obtain ⟨rank, hwf⟩ := hac
-  have hgen : ∀ (ds : List Nat) (g1 : Graph V) (vals : List V),
-      (artifactTrace F i s g1 ds vals).foldl (fun a f => f a) g1 =
-        (pull (Eval F) g1 ds).1.set i (.struct (s.executed (pull (Eval F) g1 ds).1 ((vals ++ (pull (Eval F) g1 ds).2.1).map some))) := by
-    intro ds
-    induction ds with
-    | nil => intro g1 vals; simp [artifactTrace, pull]
-    | cons d ds ih =>
-      intro g1 vals
-      simp only [artifactTrace, List.foldl_cons, pull]
-      rw [ih]
-      simp
-  rw [Eval_eq_all g hwf hra, hs]
-  simp only [ho, if_true]
-  rw [hgen]
-  simp
-
-omit [DecidableEq V] in
-/-- hence, with the lock: a client that performs the micro-steps of `Artifact(i)` inside its
-    critical section leaves exactly `seqStep`'s state, whatever the other clients do meanwhile -/
-theorem locked_artifact_is_atomic (g0 : Graph V) (sy : GSys (Graph V)) (h : GExec g0 sy) (t : Tid)
-    (start : Graph V) (i : Nat) (s : SNode V) (hac : Acyclic F start) (hra : ReadsAll start)
-    (hs : start i = .struct s)
-    (ho : Outdated F start i = true) (hpc : sy.pc t = .crit start (artifactTrace F i s start s.deps [])) :
-    sy.g = (seqStep F start (.artifact i)).1 := by
-  rw [(critical_section_atomic g0 sy h).1 t start _ hpc, artifactTrace_eval start hac hra i s hs ho]
-  rfl
-
 /-! ### linearizability of the FINE-GRAINED locked system (critical sections are many steps) -/
 
 omit [DecidableEq V] in
@@ -481,44 +421,62 @@ theorem fine_linearizable (g0 : Graph V) (s : FSys V) (h : FExec F g0 s) :
   (linearizable g0 s.abs (fine_refines g0 s h)).1
 
 omit [DecidableEq V] in
-/-- the micro-steps of `Artifact(i)` of ANY processor (skipping ones included) compose to `Eval` -/
-theorem artifactTraceM_eval (g : Graph V) (hac : Acyclic F g) (i : Nat) (s : SNode V)
+/-- the micro-steps of `Artifact(i)` of ANY processor (any pull strategy), applied one after the
+    other with nothing in between, are exactly the sequential specification's `Eval` -/
+theorem artifactTraceS_eval (g : Graph V) (hac : Acyclic F g) (i : Nat) (s : SNode V)
     (hs : g i = .struct s) (ho : Outdated F g i = true) :
-    (artifactTraceM F i s g s.deps []).foldl (fun a f => f a) g = (Eval F g i).1 := by
+    (artifactTraceS F i s (s.next s.scalars s.arrays) s.deps s.deps.length g
+        (List.replicate s.deps.length none)).foldl (fun a f => f a) g = (Eval F g i).1 := by
   obtain ⟨rank, hwf⟩ := hac
-  have hgen : ∀ (ds : List Nat) (g1 : Graph V) (acc : List (Option V)),
-      (artifactTraceM F i s g1 ds acc).foldl (fun a f => f a) g1 =
-        (pullM (Eval F) s.reads g1 ds acc).1.set i
-          (.struct (s.executed (pullM (Eval F) s.reads g1 ds acc).1 (pullM (Eval F) s.reads g1 ds acc).2.1)) := by
-    intro ds
-    induction ds with
-    | nil => intro g1 acc; simp [artifactTraceM, pullM]
-    | cons d ds ih =>
-      intro g1 acc
-      simp only [artifactTraceM, pullM]
-      split
-      · simp only [List.foldl_cons]
-        rw [ih]
-      · rw [ih]
+  have hgen : ∀ (n : Nat) (g1 : Graph V) (es : List (Option V)),
+      (artifactTraceS F i s (s.next s.scalars s.arrays) s.deps n g1 es).foldl (fun a f => f a) g1 =
+        (pullS (Eval F) (s.next s.scalars s.arrays) s.deps n g1 es).1.set i
+          (.struct (s.executed (pullS (Eval F) (s.next s.scalars s.arrays) s.deps n g1 es).1
+            (pullS (Eval F) (s.next s.scalars s.arrays) s.deps n g1 es).2.1)) := by
+    intro n
+    induction n with
+    | zero => intro g1 es; simp [artifactTraceS, pullS]
+    | succ n ih =>
+      intro g1 es
+      simp only [artifactTraceS, pullS]
+      cases hnx : s.next s.scalars s.arrays es with
+      | none => simp
+      | some k =>
+        dsimp only
+        cases hdk : s.deps[k]? with
+        | none => simp
+        | some d =>
+          dsimp only
+          simp only [List.foldl_cons]
+          rw [ih]
   rw [Eval_eq g hwf, hs]
   simp only [ho, if_true]
   rw [hgen]
 
+omit [DecidableEq V] in
+/-- hence, with the lock: a client that performs the micro-steps of `Artifact(i)` inside its
+    critical section leaves exactly `seqStep`'s state, whatever the other clients do meanwhile -/
+theorem locked_artifact_is_atomic (g0 : Graph V) (sy : GSys (Graph V)) (h : GExec g0 sy) (t : Tid)
+    (start : Graph V) (i : Nat) (s : SNode V) (hac : Acyclic F start) (hs : start i = .struct s)
+    (ho : Outdated F start i = true)
+    (hpc : sy.pc t = .crit start (artifactTraceS F i s (s.next s.scalars s.arrays) s.deps s.deps.length start
+      (List.replicate s.deps.length none))) :
+    sy.g = (seqStep F start (.artifact i)).1 := by
+  rw [(critical_section_atomic g0 sy h).1 t start _ hpc, artifactTraceS_eval start hac i s hs ho]
+  rfl
 
 omit [DecidableEq V] in
 /-- the side condition of `FStep.finish` ("the owner's micro-steps compose to the sequential effect
-    of its call") holds for the programs of the three entry points: a single step for
-    `UpdateParameter` / `ParameterData` (and for an `Artifact` whose producer is processed), the
-    trace `artifactTraceM` for an `Artifact` whose producer is outdated — any processor, skipping
-    ones included -/
-theorem programs_correct (g : Graph V) (hac : Acyclic F g) (c : Call V) :
-    [fun a => (seqStep F a c).1].foldl (fun a f => f a) g = (seqStep F g c).1 ∧
-    ∀ i s, c = .artifact i → g i = .struct s → Outdated F g i = true →
-      (artifactTraceM F i s g s.deps []).foldl (fun a f => f a) g = (seqStep F g c).1 := by
-  refine ⟨rfl, ?_⟩
-  intro i s hc hs ho
-  subst hc
-  exact artifactTraceM_eval g hac i s hs ho
+    of its call") holds for the program of `Artifact` on an outdated producer, split into its
+    `.Value()` pulls and the store — any processor, any pull strategy.  (For `UpdateParameter` /
+    `ParameterData` the model's program IS the single step `seqStep` — nothing to prove; in Go
+    `UpdateParameter` is several steps under the lock: the `Parameter` map scan, `ApplyMessage`,
+    `incModelVersion` — and `FStep.finish` takes the response by definition; see the residue.) -/
+theorem programs_correct (g : Graph V) (hac : Acyclic F g) (i : Nat) (s : SNode V)
+    (hs : g i = .struct s) (ho : Outdated F g i = true) :
+    (artifactTraceS F i s (s.next s.scalars s.arrays) s.deps s.deps.length g
+        (List.replicate s.deps.length none)).foldl (fun a f => f a) g = (seqStep F g (.artifact i)).1 :=
+  artifactTraceS_eval g hac i s hs ho
 
 theorem dia_init : Init 4 dia := by
   refine ⟨⟨fun i => if i < 4 then i else 0, ?_, ?_⟩, ?_⟩
@@ -565,7 +523,7 @@ example : ∃ s : FSys Nat, FExec 4 dia s ∧ s.hist = [.inv 0 0 (.artifact 3), 
     (.micro _ 0 0 (.artifact 3) dia _ (fun g => (Eval 4 g 2).1) rfl))
     (.micro _ 0 0 (.artifact 3) dia _ (fun g => g.set 3 (.struct ((mkN [some 1, some 2]).executed g [some 2, some 2]))) rfl))
     (.finish _ 0 0 (.artifact 3) dia _ rfl ?_), rfl, ?_, rfl⟩
-  · exact artifactTrace_eval (F := 4) dia dia_init.1 dia_readsAll 3 (mkN [some 1, some 2]) rfl (by decide)
+  · exact artifactTraceS_eval (F := 4) dia dia_init.1 3 (mkN [some 1, some 2]) rfl (by decide)
   · decide
 
 /-- a concrete execution of the fine-grained system with two clients: client 0 is inside its
